@@ -111,7 +111,7 @@ def project(df):
 
 
 def cause_of(how):
-    """Root-cause class of a run of the pinned algorithm (its branch log)."""
+    """Branch class of a run of the algorithm model (its branch log)."""
     steps = [tuple(h) for h in how]
     if ("suffix-tailcut", "both-headcut") in steps:
         return "tailcut+headcut_in_one_join"
@@ -163,8 +163,9 @@ def tomo_instances(case):
 
 def classify(ctx, pending):
     """pending: [(clause, detail, case, kind, rows | None)].  Runs the algorithm model of Chains.tla on the abstract
-    instance of every failing case and names the cause: the table is exactly what the pinned algorithm computes
-    (and through which cut branches) or it differs from it.  Only used to build narrow failure signatures."""
+    instance of every failing case and names the cause: the table is exactly what the algorithm model of the current
+    design computes (and through which cut branches) or it differs from it.  Only used to build narrow failure
+    signatures (clause / kind / cause); the verdict is ValidTrace's."""
     if not pending:
         return
     insts, per_case = {}, []
@@ -206,9 +207,9 @@ def classify(ctx, pending):
             cause = "unclassified:equal_distances"
         elif agree:
             order = ["tailcut+headcut_in_one_join", "tailcut", "no_tailcut"]
-            cause = "pinned-algorithm:" + min(causes, key=order.index)
+            cause = "as-algorithm-model:" + min(causes, key=order.index)
         else:
-            cause = "differs-from-pinned-algorithm"
+            cause = "differs-from-algorithm-model"
         ctx.fail(clause, detail + "; cause: " + cause, case, {"op": OP, "kind": kind, "cause": cause})
 
 
